@@ -59,6 +59,10 @@ func (m *MemoryKV) Renew(ctx context.Context, lease []byte, ttl time.Duration, p
 }
 
 func (m *MemoryKV) Release(ctx context.Context, lease []byte, token uint64) error {
+	if token == 0 {
+		// 0 is how a free lease is represented, never a token that was handed out
+		return chord.ErrKVLeaseExpired
+	}
 	v, _ := m.fetchVal(lease)
 	if !v.lease.CompareAndSwap(token, 0) {
 		return chord.ErrKVLeaseExpired
